@@ -12,10 +12,14 @@ pub mod c04;
 pub mod c05;
 pub mod c06;
 pub mod c07;
+pub mod c08;
 pub mod c09;
 pub mod c11;
 pub mod c12;
+pub mod c15;
+pub mod c16;
 pub mod c18;
+pub mod c19;
 
 use common::*;
 use serde_json::Value;
@@ -42,10 +46,14 @@ pub fn modules() -> Vec<Module> {
         module!("C05", c05),
         module!("C06", c06),
         module!("C07", c07),
+        module!("C08", c08),
         module!("C09", c09),
         module!("C11", c11),
         module!("C12", c12),
+        module!("C15", c15),
+        module!("C16", c16),
         module!("C18", c18),
+        module!("C19", c19),
     ]
 }
 
